@@ -13,14 +13,14 @@ ALPHABET = ["a", " ", "\t", "'", '"', "\\", "$", ";", "=", "-"]
 JOBNAMES = ["j0", "name-with.dots_1", "7"]
 
 
-def _mk(ex, out, name, command, ajn, aod, hpc_id="5150", batch=3):
+def _mk(ex, out, name, command, ajn, aod, hpc_id="5150", batch=3, manager=True):
     import jade.jobs.async_cli_command as acc
     from jade.extensions.generic_command import GenericCommandExecution, GenericCommandParameters
 
     job = GenericCommandParameters(name=name, command=command, append_job_name=ajn, append_output_dir=aod)
     jobs_output = os.path.join(out, "job-outputs")
     cli = GenericCommandExecution.generate_command(job, jobs_output, os.path.join(out, "config.json"), verbose=False)
-    return job, acc.AsyncCliCommand(job, cli, out, batch, True, hpc_id)
+    return job, acc.AsyncCliCommand(job, cli, out, batch, manager, hpc_id)
 
 
 def k_launch_split(max_len=4, alphabet=None):
@@ -228,6 +228,57 @@ def k_launch_real():
         rows = ResultsAggregator.list_results(out)
         ex.check(len(rows) == 1 and rows[0].name == "j0" and rows[0].return_code == rc,
                  "C19: recorded exit code differs from the real exit status", rows=[tuple(r) for r in rows], rc=rc)
+        ex.reached()
+
+    return harness
+
+
+def k_launch_nonmanager():
+    """A multi-node batch: only the manager node records results (completion and cancellation), other nodes never do."""
+    from world import world
+
+    world.install()
+    bootstrap()
+    from jade.jobs.results_aggregator import ResultsAggregator
+
+    def harness(ex):
+        out = fresh_dir("klaunchnm")
+        os.makedirs(os.path.join(out, "job-stdio"))
+        os.makedirs(os.path.join(out, "results"))
+        ResultsAggregator.create(out)
+        manager = ex.flag("manager_node")
+        cancel = ex.flag("canceled")
+
+        class P:
+            pid = 5
+            returncode = None
+
+            def poll(self):
+                return self.returncode
+
+        pipe = P()
+        world.KERNEL.update(popen=lambda argv, *a, **kw: pipe, now=lambda: 100.0)
+        try:
+            job, cmd = _mk(ex, out, "j0", "run j0", False, False, hpc_id="77", batch=4, manager=manager)
+            if cancel:
+                cmd.cancel()
+                ex.check(cmd.is_complete() and cmd.return_code != 0, "C04: canceled queue entry not complete with a non-zero code")
+            else:
+                cmd.run()
+                pipe.returncode = [0, 2][ex.choice("rc", 2)]
+                ex.check(cmd.is_complete(), "C19: exited job not reported complete")
+        finally:
+            world.KERNEL.update(popen=None, now=None)
+            for fp in (cmd._stdout_fp, cmd._stderr_fp):
+                if fp is not None and not fp.closed:
+                    fp.close()
+            cmd._is_pending = False
+        ResultsAggregator.load(out).process_results()
+        rows = ResultsAggregator.list_results(out)
+        ex.check(len(rows) == (1 if manager else 0), "C03/C19: result recorded by a node that is not the batch's manager node (or not recorded by the manager)",
+                 manager=manager, canceled=cancel, rows=[tuple(r) for r in rows])
+        if rows:
+            ex.check(rows[0].status == ("canceled" if cancel else "finished"), "C03/C04: wrong status recorded", got=rows[0].status)
         ex.reached()
 
     return harness
